@@ -273,6 +273,9 @@ fn run_parallel(report: &Report, rt: &Arc<tokio::runtime::Runtime>, provider: &P
 
 pub fn run(opts: Opts) -> i32 {
     let report = Report::new("C07", "exploration", opts.clone());
+    if let Some(path) = &opts.replay {
+        report.replay_by_re_enumeration(path);
+    }
     report.set_rule(
         "provider scripts: first response = every sequence of <=2 (quick) / <=3 (thorough) events from {text delta, response.completed with id, \
          function call to write / unknown tool / invalid arguments, malformed JSON, schema-invalid event} x {[DONE], close without [DONE], \
